@@ -187,3 +187,161 @@ pub proof fn lemma_pow2_inj(a: nat, b: nat)
     lemma_pow2(a); lemma_pow2(b);
     if a < b { lemma_pow2_mono(a + 1, b); } else if b < a { lemma_pow2_mono(b + 1, a); }
 }
+
+/// structural facts of a bit-tree decode that do not depend on the coder registers
+pub proof fn lemma_sp_tree_range(rc: Rc, probs: Seq<u16>, n: nat, i: nat, m: nat, upd: bool)
+    requires i <= n, pow2(i) <= m < 2 * pow2(i), probs.len() >= pow2(n),
+    ensures match sp_tree(rc, probs, n, i, m, upd) {
+        Some((m2, r2, p2)) => p2.len() == probs.len() && pow2(n) <= m2 < 2 * pow2(n) && (!upd ==> p2 == probs)
+            && (probs_ok(probs) ==> probs_ok(p2)),
+        None => true,
+    },
+    decreases n - i
+{
+    lemma_pow2(i);
+    if i < n {
+        lemma_pow2_mono(i + 1, n);
+        match sp_bit(rc, probs[m as int], upd) {
+            None => {},
+            Some((b, r2, p2)) => {
+                let pr2 = probs.update(m as int, p2);
+                let m2 = 2 * m + (if b { 1nat } else { 0nat });
+                if !upd { assert(pr2 =~= probs); }
+                if probs_ok(probs) { lemma_prob(probs[m as int]); assert(probs_ok(pr2)); }
+                lemma_sp_tree_range(r2, pr2, n, i + 1, m2, upd);
+            }
+        }
+    }
+}
+
+pub proof fn lemma_sp_rev_tree_range(rc: Rc, probs: Seq<u16>, off: nat, n: nat, i: nat, m: nat, sym: nat, upd: bool)
+    requires i <= n, pow2(i) <= m < 2 * pow2(i), sym < pow2(i), probs.len() >= off + pow2(n),
+    ensures match sp_rev_tree(rc, probs, off, n, i, m, sym, upd) {
+        Some((v, r2, p2)) => p2.len() == probs.len() && v < pow2(n) && (!upd ==> p2 == probs)
+            && (probs_ok(probs) ==> probs_ok(p2)),
+        None => true,
+    },
+    decreases n - i
+{
+    lemma_pow2(i);
+    if i < n {
+        lemma_pow2_mono(i + 1, n);
+        match sp_bit(rc, probs[(off + m) as int], upd) {
+            None => {},
+            Some((b, r2, p2)) => {
+                let pr2 = probs.update((off + m) as int, p2);
+                if !upd { assert(pr2 =~= probs); }
+                if probs_ok(probs) { lemma_prob(probs[(off + m) as int]); assert(probs_ok(pr2)); }
+                lemma_sp_rev_tree_range(r2, pr2, off, n, i + 1, 2 * m + (if b { 1nat } else { 0nat }),
+                    sym + (if b { pow2(i) } else { 0nat }), upd);
+            }
+        }
+    }
+}
+
+pub proof fn lemma_shl64(k: nat)
+    requires k < 63,
+    ensures (1u64 << k) == pow2(k), (1usize << k) == pow2(k),
+    decreases k
+{
+    lemma_pow2(k);
+    if k == 0 {
+        assert((1u64 << 0) == 1) by (bit_vector);
+        assert((1usize << 0) == 1) by (bit_vector);
+    } else {
+        lemma_shl64((k - 1) as nat);
+        lemma_pow2((k - 1) as nat);
+        let k1: u64 = (k - 1) as u64;
+        assert((1u64 << ((k1 + 1) as u64)) == 2 * (1u64 << k1)) by (bit_vector) requires k1 < 62;
+        let k2: usize = (k - 1) as usize;
+        assert((1usize << ((k2 + 1) as usize)) == 2 * (1usize << k2)) by (bit_vector) requires k2 < 62;
+    }
+}
+
+/// arithmetic of the distance-slot decoding (kStartPosModelIndex = 4, kEndPosModelIndex = 14)
+pub proof fn lemma_dist_base(s: usize)
+    requires 4 <= s < 64,
+    ensures ({
+        let ndb: usize = ((s >> 1) - 1) as usize;
+        let base: usize = (2usize ^ (s & 1)) << ndb;
+        &&& (s >> 1) >= 2 && ndb == s / 2 - 1 && 1 <= ndb <= 30
+        &&& (s & 1) == s % 2
+        &&& base == (2 + s % 2) * pow2(ndb as nat)
+        &&& base >= s && base <= 0xC000_0000
+        &&& (s < 14 ==> ndb <= 5 && base - s + pow2(ndb as nat) <= 115)
+        &&& (s >= 14 ==> ndb >= 6)
+    }),
+{
+    let ndb: usize = ((s >> 1) - 1) as usize;
+    let base: usize = (2usize ^ (s & 1)) << ndb;
+    assert((s >> 1) == s / 2 && (s & 1) == s % 2) by (bit_vector);
+    assert((s >> 1) >= 2) by (bit_vector) requires 4 <= s < 64;
+    assert(ndb == s / 2 - 1 && 1 <= ndb && ndb <= 30) by (bit_vector) requires 4 <= s < 64, ndb == (s >> 1) - 1;
+    let p: usize = 1usize << ndb;
+    assert(base == (2 + s % 2) * p && base >= s && base <= 0xC000_0000usize) by (bit_vector)
+        requires 4 <= s < 64, ndb == (s >> 1) - 1, base == (2usize ^ (s & 1)) << ndb, p == 1usize << ndb;
+    lemma_shl64(ndb as nat);
+    if s < 14 {
+        assert(ndb <= 5 && base - s + p <= 115) by (bit_vector)
+            requires 4 <= s < 14, ndb == (s >> 1) - 1, base == (2usize ^ (s & 1)) << ndb, p == 1usize << ndb;
+    } else {
+        assert(ndb >= 6) by (bit_vector) requires 14 <= s < 64, ndb == (s >> 1) - 1;
+    }
+}
+
+pub proof fn lemma_shl4(d: u32)
+    ensures ((d as usize) << 4) == (d as nat) * 16,
+{
+    let x = d as usize;
+    assert((x << 4) == x * 16) by (bit_vector) requires x <= 0xFFFF_FFFFusize;
+}
+
+/// litState arithmetic: the machine expression equals the format formula and indexes the table
+pub proof fn lemma_lit_state(len: usize, lp: u32, lc: u32, prev: usize)
+    requires lp <= 4, lc <= 8, prev < 256,
+    ensures ({
+        let ls: usize = (((len & (((1usize << lp) - 1) as usize)) << lc) + (prev >> ((8 - lc) as u32))) as usize;
+        &&& (1usize << lp) >= 1
+        &&& ((len & (((1usize << lp) - 1) as usize)) << lc) + (prev >> ((8 - lc) as u32)) < pow2((lc + lp) as nat)
+        &&& ls == sp_lit_state(lc as nat, lp as nat, len as nat, prev as nat)
+    }),
+{
+    let a: usize = 1usize << lp;
+    let b: usize = 1usize << lc;
+    let c: usize = 1usize << ((8 - lc) as u32);
+    let d: usize = 1usize << ((lc + lp) as u32);
+    lemma_shl64(lp as nat); lemma_shl64(lc as nat); lemma_shl64((8 - lc) as nat); lemma_shl64((lc + lp) as nat);
+    let x: usize = len & ((a - 1) as usize);
+    assert(a >= 1 && a <= 16 && x == len % a && x < a) by (bit_vector) requires lp <= 4, a == 1usize << lp, x == len & ((a - 1) as usize);
+    let y: usize = x << lc;
+    assert(y == x * b) by (bit_vector) requires lc <= 8, x < 16, b == 1usize << lc, y == x << lc;
+    let sh: u32 = (8 - lc) as u32;
+    let z: usize = prev >> sh;
+    assert(z == prev / c && z < b) by (bit_vector) requires lc <= 8, sh == 8 - lc, prev < 256, c == 1usize << sh, b == 1usize << lc, z == prev >> sh;
+    assert(d == a * b) by (bit_vector) requires lc <= 8, lp <= 4, a == 1usize << lp, b == 1usize << lc, d == 1usize << ((lc + lp) as u32);
+    assert(x * b + z < a * b) by (nonlinear_arith) requires x < a, z < b, x >= 0, z >= 0;
+}
+
+pub proof fn lemma_match_bit(mb: usize, result: usize)
+    requires mb < 0x100 * result, 1 <= result < 0x100,
+    ensures ({
+        let bit: usize = (mb >> 7) & 1;
+        &&& bit == (mb as nat / 128) % 2 && bit <= 1
+        &&& (mb << 1) == mb * 2
+        &&& (((1 + bit) as usize) << 8) + result == (1 + bit) * 256 + result
+        &&& (((1 + bit) as usize) << 8) + result < 0x300
+    }),
+{
+    let bit: usize = (mb >> 7) & 1;
+    assert(bit == (mb / 128) % 2 && bit <= 1 && (mb << 1) == mb * 2) by (bit_vector) requires mb < 0x10000, bit == (mb >> 7) & 1;
+    let o: usize = (1 + bit) as usize;
+    assert((o << 8) == o * 256) by (bit_vector) requires o <= 2;
+}
+
+pub proof fn lemma_shl1_xor(r: usize, b: bool)
+    requires r < 0x100,
+    ensures ((r << 1) ^ (if b { 1usize } else { 0usize })) == 2 * r + (if b { 1nat } else { 0nat }),
+{
+    let bu: usize = if b { 1usize } else { 0usize };
+    assert(((r << 1) ^ bu) == 2 * r + bu) by (bit_vector) requires r < 0x100, bu <= 1;
+}
